@@ -5,6 +5,7 @@ CONSTANTS
   ReqSeq <- MCReqSeq
   BFamily <- BFamAll
   Export = FALSE
+  CheckE4 = FALSE
   Dev_S20_RuleOffRaises = FALSE
   Dev_S20b_UnofferedSessionAsserts = TRUE
 INVARIANT TypeOK
